@@ -152,7 +152,7 @@ Section Closure.
       intros Ha. unfold run_action. apply P_try_w.
       - apply P_try_w; [apply Ha|]. intros r wa. apply P_bind; [apply P_emit_u; reflexivity|intros _]. destruct r; pa.
       - intros r wa. destruct r as [v|e]; [pa|]. destruct e; pa.
-        destruct (failed a); pa. destruct (Nat.eqb _ _); pa. destruct (internal_msg m); pa.
+        destruct (failed a); pa. destruct (rd wa); pa. destruct (internal_msg m); pa.
     Qed.
     Lemma P_exec_action id nacts (run_act : nat -> val -> M val) :
       (forall i s, P (run_act i s)) -> forall tries s, P (exec_action geom LF id nacts run_act tries s).
